@@ -404,7 +404,7 @@ def _pool_map(fn, items, procs=8):
 def record_many(specs, procs=8):
     """Record a work list; big lists are split over worker processes in fixed chunks (the
     result does not depend on the number of processes)."""
-    if len(specs) < 400:
+    if len(specs) < 8000:
         return _record_chunk(specs)
     chunks = [specs[k:k + 500] for k in range(0, len(specs), 500)]
     return [r for ch in _pool_map(_record_chunk, chunks, procs) for r in ch]
@@ -782,7 +782,7 @@ def _show(o):
     return ", ".join("%s=%s" % (k, v) for k, v in o.items() if k not in ("cl", "key"))[:300]
 
 
-def judge_all(ctx, recs, label, batch=40000):
+def judge_all(ctx, recs, label, batch=60000):
     for k in range(0, len(recs), batch):
         judge(ctx, recs[k:k + batch], "%s[%d]" % (label, k // batch) if len(recs) > batch else label)
 
